@@ -24,6 +24,8 @@ func init() {
 			"two fields are treated as the same field only when name, alias, absence of selections, arguments and directives agree, and a selection is removed only on that verdict after its defer information was merged. " +
 			"It does not decide exec(norm(q)) == exec(q), validity preservation or idempotence (value level).",
 		Mutants: []Mutant{
+			{Name: "a union fragment inside an overlapping union is not inlined (reverts the F81 fix)", File: "v2/pkg/astnormalization/fragment_spread_inlining.go", Rule: "C03-R15", Key: "spread-matrix/UnionTypeDefinition-in-UnionTypeDefinition",
+				Old: "fragmentUnionIntersectsEnclosingUnion = f.definition.UnionNodeIntersectsUnionNode(f.EnclosingTypeDefinition, fragmentNode)", New: "fragmentUnionIntersectsEnclosingUnion = false"},
 			{Name: "a variable without a value inside a list literal is rendered as null although it has a default (reverts part of the F68 fix)", File: "v2/pkg/ast/ast_value.go", Rule: "C03-R14", Key: "Document.writeJSONValue/absent-variable-takes-its-default",
 				Old: "\t\t\tif defaultValue, hasDefault := d.variableDefaultValue(variableName); hasDefault {\n\t\t\t\treturn d.writeJSONValue(buf, defaultValue)\n\t\t\t}\n", New: ""},
 			{Name: "a variable's default is searched among the definitions of all operations of the document (reverts the F67 fix)", File: "v2/pkg/ast/ast_val_variable_value.go", Rule: "C03-R13", Key: "Document.GetVariableBooleanValue/variable-definitions-per-operation",
@@ -94,6 +96,7 @@ func runC03(r *fw.Run) {
 	c03VariableReuseNeedsDeepTypeEquality(r)
 	c03VariableDefinitionsLookedUpPerOperation(r)
 	c03AbsentNestedVariableTakesItsDefault(r)
+	c03InlinerCoversTheSpreadMatrix(r)
 
 	r.Rule("C03-R9", "normalization runs before validation: in astnormalization and package ast the ref of an ast.Value is handed to an accessor of kind K (doc.<K>Value…(v.Ref), doc.<K>Values[v.Ref]) only where v.Kind is known to be K (equality or switch clause on the same value, a boolean local defined from it, or every caller of an unexported helper); VariableDefinition.VariableValue is a variable by construction")
 	nKR := kindRefAgreement(r, "C03-R9", []string{"astnorm", "ast"}, nil)
@@ -961,4 +964,102 @@ func c03AbsentNestedVariableTakesItsDefault(r *fw.Run) {
 		})
 	}
 	r.Expect("C03-R14", "places where the JSON converter gives up on a variable without a value", n, 2)
+}
+
+// c03InlinerCoversTheSpreadMatrix (R15): whether a fragment of type F may be spread where the enclosing type is P is a
+// 3×3 matrix over the composite kinds (object, interface, union). The validator decides it with
+// ast.Document.NodeFragmentIsAllowedOnNode — a switch over the parent kind that dispatches to a switch over the fragment
+// kind, each cell answered by one overlap helper. The normalizer's fragment spread inliner has its own copy of the
+// decision: a spread in a cell it does not know is left in place, the fragment definition survives, and the validator —
+// which runs after normalization and treats any spread still inside an operation as a cycle — rejects a valid operation.
+// The two siblings must agree: for every cell of the validator's matrix whose helper looks at both types, the inliner
+// calls the same helper (or its frozen equivalent). The matrix is read from the validator's switches, not listed.
+func c03InlinerCoversTheSpreadMatrix(r *fw.Run) {
+	p := r.Prog
+	r.Rule("C03-R15", "the fragment spread inliner knows every cell of the validator's spread-possibility matrix (read from ast.Document.NodeFragmentIsAllowedOnNode: parent kind × fragment kind → overlap helper): it calls the helper of each cell, or its equivalent")
+	root := p.Func("ast", "Document.NodeFragmentIsAllowedOnNode")
+	if root == nil {
+		r.Error("C03-R15: ast.Document.NodeFragmentIsAllowedOnNode not found")
+		return
+	}
+	// equivalents with a reason (the inliner uses name-based variants of two node-based helpers)
+	equivalent := map[string][]string{
+		"NodeImplementsInterfaceNode":          {"NodeImplementsInterface"},
+		"InterfaceNodeIntersectsInterfaceNode": {"InterfacesIntersect"},
+	}
+	type cell struct{ parent, fragment, helper string }
+	var cells []cell
+	rinfo := root.Info()
+	for _, sw := range fw.ConstSwitches(root, p.Named("ast", "NodeKind")) {
+		for _, c := range sw.Stmt.(*ast.SwitchStmt).Body.List {
+			cc := c.(*ast.CaseClause)
+			for _, e := range cc.List {
+				pk := fw.ConstObj(rinfo, e)
+				if pk == nil {
+					continue
+				}
+				// the per-parent function called in this arm
+				fw.WalkAll(cc, func(nd ast.Node) bool {
+					call, ok := nd.(*ast.CallExpr)
+					if !ok {
+						return true
+					}
+					sub := p.FuncOf(fw.Callee(rinfo, call))
+					if sub == nil {
+						return true
+					}
+					sinfo := sub.Info()
+					for _, sw2 := range fw.ConstSwitches(sub, p.Named("ast", "NodeKind")) {
+						for _, c2 := range sw2.Stmt.(*ast.SwitchStmt).Body.List {
+							cc2 := c2.(*ast.CaseClause)
+							for _, e2 := range cc2.List {
+								fk := fw.ConstObj(sinfo, e2)
+								if fk == nil {
+									continue
+								}
+								fw.WalkAll(cc2, func(m ast.Node) bool {
+									if call2, isCall := m.(*ast.CallExpr); isCall {
+										if fn := fw.Callee(sinfo, call2); fn != nil && fn.Pkg() == root.Obj.Pkg() && len(call2.Args) == 2 {
+											cells = append(cells, cell{strings.TrimPrefix(pk.Name(), "NodeKind"), strings.TrimPrefix(fk.Name(), "NodeKind"), fn.Name()})
+										}
+									}
+									return true
+								})
+							}
+						}
+					}
+					return true
+				})
+			}
+		}
+	}
+	// helpers the inliner calls
+	called := map[string]bool{}
+	for _, fi := range p.Funcs("astnorm") {
+		if !strings.HasPrefix(fi.Name(), "fragmentSpreadInlineVisitor.") {
+			continue
+		}
+		info := fi.Info()
+		fw.WalkAll(fi.Decl.Body, func(nd ast.Node) bool {
+			if c, ok := nd.(*ast.CallExpr); ok {
+				if fn := fw.Callee(info, c); fn != nil && fn.Pkg() == root.Obj.Pkg() {
+					called[fn.Name()] = true
+				}
+			}
+			return true
+		})
+	}
+	n := 0
+	for _, c := range cells {
+		n++
+		ok := called[c.helper]
+		for _, eq := range equivalent[c.helper] {
+			if called[eq] {
+				ok = true
+			}
+		}
+		r.Check(ok, "C03-R15", "spread-matrix/"+c.fragment+"-in-"+c.parent, p.Pos(root.Decl.Pos()), "the inliner decides a fragment on a "+c.fragment+" inside a "+c.parent+" with "+c.helper+" (or its equivalent), as the validator does",
+			"the validator allows a fragment on a "+c.fragment+" inside a "+c.parent+" when "+c.helper+" holds; the inliner never calls it: such a spread is left in place, its fragment definition survives normalization, and the validator, which runs afterwards and takes any remaining spread for a cycle, rejects a valid operation (`query { search { ...M } } fragment M on Media { … }` with overlapping unions)")
+	}
+	r.Expect("C03-R15", "cells of the validator's spread-possibility matrix with an overlap helper", n, 6)
 }
